@@ -6,7 +6,7 @@ the token sequence of spec/XzStreamEnc.tla (parsed by glue only).
 History (dict): enc stream|mt|raw|block, chain {pre,lz,props}, check crc|none, grant one|big|some, bsize (units, mt),
 ops [{k:'op', a:ACTION, n:units} | {k:'update', target:{pre,lz,props}}], unit (bytes per unit), lzopt {...}.
 """
-import ctypes as C
+import ctypes as C, time
 from . import lz
 from harness.glue import xz as gxz, lzma2 as gl2, lzma as gl1, filters as gflt, crc as gcrc
 
@@ -355,6 +355,9 @@ def run_history(hist, rng, max_calls=400000):
         a = o["a"]; n = o["n"] * unit
         left = n
         ret = lz.OK
+        if enc == "mt" and a != "RUN" and n == 0:
+            # let the worker threads consume what they have and go to sleep: the action alone must wake them
+            time.sleep(0.01)
         while True:
             if ncalls >= max_calls or cap - op <= 0:
                 problems.append(("runaway:%s:%s" % (enc, a), "the encoder does not finish %s: %d calls, %d bytes of output for %d bytes of input"
